@@ -103,6 +103,12 @@ func (m *Machine) verifrt(name string, args []Value, g *Term, site ssa.Instructi
 			q = append(q, Not(k.T))
 		}
 		r, model := m.solver.Check(q, true, m.inputTerms())
+		if r == Unsat && len(m.kfs) > 0 {
+			// reachable only inside a known-finding region: still not vacuous (a finding region is
+			// not an assumption); no model is kept, so no conformance run starts from inside it
+			r, _ = m.solver.Check([]*Term{g}, true, m.inputTerms())
+			model = nil
+		}
 		vc.Result = r.String()
 		vc.Model = model
 		return nil
